@@ -79,6 +79,7 @@ class GItem:
 
 class Proc:
     """stand-in for a SimPy process as the caller of a store method"""
+    outside = False          # True: calls are made from set-up code, outside any process (env.active_process is None)
 
     def __init__(self, name):
         self.name = name
@@ -498,7 +499,7 @@ class Harness:
         return [t for t in self.toks if t.kind == kind and t.state == "pending"]
 
     def as_proc(self, p):
-        self.env._active_proc = p
+        self.env._active_proc = None if getattr(p, "outside", False) else p
 
     def pick_proc(self):
         if self.two_procs:
@@ -1268,10 +1269,13 @@ def _ill_formed_call(h):
                     h.fail(f"C07:valid-get-refused-after-rejected-{kind}", {"msg": str(e)[:100]})
 
 
-def scenario_c07(store, N=2, K=1, cap_max=None, twin=False, T=2):
+def scenario_c07(store, N=2, K=1, cap_max=None, twin=False, T=2, OUTSIDE=False):
     def fn(ctx):
         ad = adapter(store)
         h = Harness(ctx, ad, ("C07",), cap_max=cap_max, two_procs=True)
+        if OUTSIDE:
+            # the second caller is set-up code running outside any process: its reservations are owned by "no process"
+            h.P[1].outside = True
         # a populated state: items, used / cancelled / granted / pending tokens of two processes on both sides
         n = ctx.choice(N + 1, "n_items")
         for i in range(n):
